@@ -104,7 +104,8 @@ fn fail(what: &str, name: &str, e: impl std::fmt::Display) -> ! {
 }
 
 fn read_opts(format: Format, len: usize) -> Opts {
-    let mut o = Opts::new(len);
+    // the length only caps the reader loops (input length + 1000 items); CRAM holds more records than bytes
+    let mut o = Opts::new(if format == Format::Cram { len.max(200_000) } else { len });
     o.vpos = false;
     o.debug = false;
     // crai `read_index()` rejects multi-record indexes in this tree (NOTES.md S1): use the record loop
@@ -151,7 +152,9 @@ pub fn make_wcase(doc: &Doc) -> Option<WCase> {
             let mut r = cram::io::reader::Builder::default().set_reference_sequence_repository(repo).build_from_reader(b);
             let header = r.read_header().unwrap_or_else(|e| fail("read", name, e));
             let bufs = r.records(&header).collect::<io::Result<_>>().unwrap_or_else(|e| fail("read", name, e));
-            (Content::Aln { header, bufs, bam: Vec::new(), sam: Vec::new() }, vec![0], Class::Decoded)
+            // api 1: the same calls through a writer that does not preserve read names (names of attached mates
+            // are then generated from the running record counter)
+            (Content::Aln { header, bufs, bam: Vec::new(), sam: Vec::new() }, vec![0, 1], Class::Decoded)
         }
         Format::Vcf | Format::VcfGz => {
             let text: Vec<u8> = if f == Format::VcfGz { doc.inner.as_ref()?.bytes.to_vec() } else { b.to_vec() };
@@ -348,8 +351,8 @@ macro_rules! var_body {
     }};
 }
 
-fn cram_sync_writer(sink: Vec<u8>) -> cram::io::Writer<Vec<u8>> {
-    cram::io::writer::Builder::default().set_reference_sequence_repository(vnd::records::repository()).build_from_writer(sink)
+fn cram_sync_writer(sink: Vec<u8>, preserve_read_names: bool) -> cram::io::Writer<Vec<u8>> {
+    cram::io::writer::Builder::default().set_reference_sequence_repository(vnd::records::repository()).preserve_read_names(preserve_read_names).build_from_writer(sink)
 }
 
 fn abgzf<W: AsyncWrite + Unpin>(sink: W, workers: usize) -> bgzf::r#async::io::Writer<W> {
@@ -385,7 +388,7 @@ pub fn sync_write_v(case: &View<'_>, api: u8) -> (Calls, Vec<u8>) {
             finish_bgzf(&mut res, w.into_inner())
         }
         Format::Cram => {
-            let mut w = cram_sync_writer(Vec::new());
+            let mut w = cram_sync_writer(Vec::new(), api == 0);
             let Content::Aln { header, bufs, .. } = &case.content else { unreachable!() };
             records_body!(sync, w, res, case, header, bufs, write_alignment_record);
             res.push(("shutdown", es(w.try_finish(header))));
@@ -511,7 +514,7 @@ pub async fn async_write_v<W: AsyncWrite + Unpin>(case: &View<'_>, api: u8, sink
             res.push(("shutdown", es(w.get_mut().shutdown().await)));
         }
         Format::Cram => {
-            let mut w = cram::r#async::io::writer::Builder::default().set_reference_sequence_repository(vnd::records::repository()).build_from_writer(sink);
+            let mut w = cram::r#async::io::writer::Builder::default().set_reference_sequence_repository(vnd::records::repository()).preserve_read_names(api == 0).build_from_writer(sink);
             let Content::Aln { header, bufs, .. } = &case.content else { unreachable!() };
             records_body!(asyn, w, res, case, header, bufs, write_alignment_record);
             res.push(("shutdown", es(w.shutdown(header).await)));
@@ -604,6 +607,7 @@ fn api_name(case: &WCase, api: u8) -> &'static str {
     match (&case.content, api) {
         (Content::Aln { .. }, 0) => "write_alignment_record",
         (Content::Var { .. }, 0) => "write_variant_record",
+        (Content::Aln { .. }, 1) if case.format == Format::Cram => "write_alignment_record(names-not-preserved)",
         (Content::Aln { .. } | Content::Var { .. }, 1) => "write_record",
         (Content::Aln { .. }, 2) => "write_alignment_record(lazy)",
         (Content::Aln { .. }, _) => "write_alignment_record(lazy-sam)",
@@ -783,6 +787,42 @@ pub fn writer_body(ch: &Chooser, cases: &[&WCase], workers: &[usize], modes: &[P
             }
         }
         Class::Decoded => {}
+    }
+    if case.format == Format::Cram {
+        // container level: the decoded records do not show the bookkeeping fields of the container headers
+        use crate::format_level::foreign::cram_container_fields;
+        match (cram_container_fields(sync_bytes), cram_container_fields(&bytes)) {
+            (Some(want), Some(got)) => {
+                if want.len() != got.len() {
+                    return Err(Violation::new(
+                        format!("fmt-writer format={fmt} api={aname}{sfx} symptom=container-count-differs-from-sync"),
+                        describe(),
+                        format!("{} containers", want.len()),
+                        format!("{} containers", got.len()),
+                    ));
+                }
+                for (k, (e, a)) in want.iter().zip(&got).enumerate() {
+                    for ((field, x), (_, y)) in e.iter().zip(a) {
+                        if x != y {
+                            return Err(Violation::new(
+                                format!("fmt-writer format={fmt} api={aname}{sfx} symptom=container-header-differs-from-sync field={field}"),
+                                describe(),
+                                format!("container {k}: {e:?}"),
+                                format!("container {k}: {a:?}"),
+                            ));
+                        }
+                    }
+                }
+                if want.len() >= 4 {
+                    ch.tag("cram-three-or-more-data-containers");
+                }
+                ch.tag("cram-container-headers-compared");
+            }
+            (None, Some(_)) => ch.tag("cram-sync-output-not-walkable"),
+            _ => {
+                return Err(Violation::new(format!("fmt-writer format={fmt} api={aname}{sfx} symptom=output-not-walkable-cram"), describe(), "a sequence of CRAM containers", "structural walk fails"));
+            }
+        }
     }
     if case.class != Class::Plain {
         let log = vnd::read_log(case.format, &bytes[..], &read_opts(case.format, bytes.len()));
